@@ -67,6 +67,20 @@ Theorem C16_dial_once : forall cf ls s, lrun cf init ls = Some s ->
 Proof. exact C16_dial_once_l. Qed.
 Print Assumptions C16_dial_once.
 
+(* ... and dialled again: whenever the routed name of an accepted envelope has no table entry - it never had one,
+   or every record that carried it failed and lost it (C17_remove: also a record dialled on demand) - the forwarding
+   step creates a new record for the name, starts exactly one dial and buffers the envelope for it *)
+Theorem C16_redial : forall cf s p cp e d e',
+  fw s = true -> nth_error (clients s) p = Some cp -> p_rd cp = RDOffer e ->
+  forward cf (p_name cp) e = FRoute d e' ->
+  find_reg d (upd p (set_rd cp RDRead false) (clients s)) 0 = None ->
+  exists s', r_fw_cmd cf p s = Some s' /\
+    dials (log s') = dials (log s) ++ [(length (clients s), d)] /\
+    nth_error (clients s') (length (clients s)) = Some (fst (enqueue_c cf (new_dialled d) e')) /\
+    In (EvFwd p e (length (clients s)) e' (snd (enqueue_c cf (new_dialled d) e'))) (log s').
+Proof. exact C16_redial_l. Qed.
+Print Assumptions C16_redial.
+
 (* order per source-destination pair: the envelopes of source record j enqueued for destination record i, taken in
    the order of the history, are - as received - an in-order sub-sequence of the envelopes the proxy accepted from
    j, which are an in-order sub-sequence of what the forwarding loop received from j (by C16_source_order: of what
